@@ -32,17 +32,25 @@ func init() {
 			"the static 'for all schedules' clause of the quantifier is outside runtime monitoring and is not attempted; every standard tag and filter closure is instead executed by several goroutines at once under the race detector",
 			"custom tags, filters and Drops a user registers are not covered",
 		},
-		MinEvents: map[string]int64{"concurrent_operations": 20000, "self_overlapping_templates": 20},
+		MinEvents: map[string]int64{"concurrent_operations": 20000, "self_overlapping_templates": 20, "fixed_template_seen:tag include": 1},
 		Post:      c04Post,
 		Run:       runC04,
 	})
 }
 
+// c04Post: every fixed (per tag / per filter) template must have been observed running concurrently with
+// itself in at least one round; otherwise there is no verdict for the closure it exercises.
 func c04Post(m *core.Merged) []string {
 	var out []string
-	if m.Obs["templates_never_self_overlapped"] > 0 {
-		out = append(out, fmt.Sprintf("%d templates were never observed running concurrently with themselves: no verdict for those", m.Obs["templates_never_self_overlapped"]))
+	for k, v := range m.Obs {
+		if strings.HasPrefix(k, "fixed_template_seen:") && v > 0 {
+			name := strings.TrimPrefix(k, "fixed_template_seen:")
+			if m.Obs["fixed_template_self_overlapped:"+name] == 0 {
+				out = append(out, "the template for "+name+" was never observed running concurrently with itself: no verdict for it")
+			}
+		}
 	}
+	sort.Strings(out)
 	return out
 }
 
@@ -154,6 +162,7 @@ func c04Round(c *core.Ctx, round int) {
 		c.Obs("tag_table_not_reflectable", 1)
 	}
 	var srcs []string
+	var fixedNames []string // fixedNames[i] names what srcs[i] exercises, for the per-tag / per-filter templates
 	covered := map[string]bool{}
 	for _, name := range append(append([]string{}, tags...), blocks...) {
 		if strings.HasPrefix(name, "end") || name == "else" || name == "elsif" || name == "when" || name == "vyield" {
@@ -165,10 +174,12 @@ func c04Round(c *core.Ctx, round int) {
 			srcs = append(srcs, "{% "+name+" %}")
 			c.Obs("tags_without_dedicated_template", 1)
 		}
+		fixedNames = append(fixedNames, "tag "+name)
 		covered[name] = true
 	}
 	for _, name := range filters {
 		srcs = append(srcs, c04FilterTemplate(name))
+		fixedNames = append(fixedNames, "filter "+name)
 	}
 	c.ObsMax("max:registered_filters", int64(len(filters)))
 	c.ObsMax("max:registered_tags_and_blocks", int64(len(covered)))
@@ -356,7 +367,13 @@ func c04Round(c *core.Ctx, round int) {
 	c.Obs("operations_that_overlapped_another", int64(overlapped))
 	c.Obs("distinct_overlapping_template_pairs", int64(len(pairs)))
 	c.Obs("self_overlapping_templates", int64(len(selfOverlap)))
-	c.Obs("templates_never_self_overlapped", int64(len(srcs)-len(selfOverlap)))
+	c.Obs("templates_not_self_overlapped_in_some_round", int64(len(srcs)-len(selfOverlap)))
+	for i, name := range fixedNames {
+		c.Obs("fixed_template_seen:"+name, 1)
+		if selfOverlap[i] {
+			c.Obs("fixed_template_self_overlapped:"+name, 1)
+		}
+	}
 	c.Sample(map[string]any{"round": round, "templates": len(srcs), "operations": len(ops), "overlapping_pairs": len(pairs), "self_overlapping_templates": len(selfOverlap),
 		"example_template": srcs[r.Intn(len(srcs))], "first_operations": func() []string {
 			var out []string
